@@ -83,6 +83,7 @@ class C13(Check):
         import cirq
         repoenv.assert_working_tree(cirq)
         from engines import qdrive, qref, scripted_prng
+        qdrive.install_deterministic_state_hash()
         self.cirq = cirq
         self.qdrive, self.qref, self.sp = qdrive, qref, scripted_prng
         self._cliffords_1q = list(cirq.SingleQubitCliffordGate.all_single_qubit_cliffords)
@@ -247,6 +248,7 @@ class C13(Check):
     # -- the run -----------------------------------------------------------------------------------------
     def run_one(self, tape, ctx: Ctx) -> None:
         cirq = self.cirq
+        self.qdrive.reset_state_hash_counter()
         sp = self.sp
         ctx.workload = "stabilizer"
         sut = ["ch-steps", "ch-act_on", "tableau-act_on", "simulate", "run", "stab-sampler", "clifford-state"][
